@@ -230,6 +230,126 @@ impl Check for Rows {
     }
 }
 
+
+// ------------------------------------------------------------------ the rules as the integrators consume them
+/// One tabulated rule is isolated through the public API: the integrators walk their rule sequence and return when
+/// two consecutive rules agree within the tolerance. The integrand closure counts calls (rule k, consumed properly,
+/// makes k evaluations), answers NaN during rules < n-2 (no agreement is possible), 0 during rules n-2 and n-1
+/// (they agree with each other, but the rule before them was NaN), and g(x) during rule n; with a huge tolerance the
+/// integrator then returns exactly "rule n applied to g". n = 1 and n = 3 cannot be isolated this way.
+#[derive(Serialize, Deserialize, Clone, Debug)]
+pub struct ConsumedPt {
+    pub table: usize,
+    pub n: usize,
+}
+pub struct Consumed;
+fn isolate(table: usize, n: usize, g: &dyn Fn(f64) -> f64) -> (Result<Result<f64, String>, String>, Vec<f64>) {
+    use bacon_sci::integrate::*;
+    use std::cell::RefCell;
+    let calls = RefCell::new(0usize);
+    let seen: RefCell<Vec<f64>> = RefCell::new(vec![]);
+    // rule k occupies calls [k(k-1)/2, k(k+1)/2)
+    let lo_zero = if n >= 2 { (n - 2) * (n.saturating_sub(3)) / 2 } else { 0 };
+    let lo_n = n * (n - 1) / 2;
+    let hi_n = n * (n + 1) / 2;
+    let f = |x: f64| -> f64 {
+        let c = *calls.borrow();
+        *calls.borrow_mut() += 1;
+        if c >= lo_n && c < hi_n {
+            seen.borrow_mut().push(x);
+            g(x)
+        } else if c >= lo_n {
+            f64::NAN // a rule beyond n is being evaluated: the integrator did not stop where it should
+        } else if c >= lo_zero || n == 2 {
+            0.0
+        } else {
+            f64::NAN
+        }
+    };
+    let res = vcore::guard(|| match table {
+        0 => integrate_gaussian::<f64, _>(-1.0, 1.0, f, 1e300),
+        1 => integrate_hermite::<f64, _>(f, 1e300),
+        2 => integrate_laguerre::<f64, _>(f, 1e300),
+        3 => integrate_chebyshev::<f64, _>(f, 1e300),
+        _ => integrate_chebyshev_second::<f64, _>(f, 1e300),
+    });
+    (res, seen.into_inner())
+}
+impl Check for Consumed {
+    type P = ConsumedPt;
+    fn name(&self) -> &'static str {
+        "rules-as-consumed"
+    }
+    fn rule(&self) -> String {
+        "every rule n = 2 and n >= 4 of the five Gaussian tables, isolated through the public integrate_* functions by a stateful integrand (NaN / 0 / g by call count): the integrator must evaluate exactly n distinct abscissae for it and reproduce the moments k = 0, 1, 2, 2n-2, 2n-1; signature = (table, n)".into()
+    }
+    fn points(&self, _t: Tier) -> Vec<ConsumedPt> {
+        let mut v = vec![];
+        for t in 0..5 {
+            for n in 2..=table(t).len() {
+                if n != 3 {
+                    v.push(ConsumedPt { table: t, n });
+                }
+            }
+        }
+        v
+    }
+    fn run(&self, p: &ConsumedPt) -> Outcome {
+        let mut o = Outcome::new();
+        let subj = format!("integrate::{} (rule {} as consumed)", ["integrate_gaussian", "integrate_hermite", "integrate_laguerre", "integrate_chebyshev", "integrate_chebyshev_second"][p.table], p.n);
+        let n = p.n;
+        let tol = match p.table {
+            0 => 2e-12,
+            1 | 2 => 1e-9,
+            _ => 64.0 * EPS * n as f64,
+        };
+        o.executions = 0;
+        for k in [0usize, 1, 2, 2 * n - 2, 2 * n - 1] {
+            // normalise the monomial so that the weighted integral of |x|^k is O(1)
+            let scale = match p.table {
+                1 => lgamma_half(if k % 2 == 0 { k } else { k + 1 }).max(1.0),
+                2 => factorial(k).max(1.0),
+                _ => 1.0,
+            };
+            let g = move |x: f64| x.powi(k as i32) / scale;
+            let (res, seen) = isolate(p.table, n, &g);
+            o.executions += 1;
+            let want = match p.table {
+                0 => if k % 2 == 0 { 2.0 / (k as f64 + 1.0) } else { 0.0 },
+                1 => if k % 2 == 0 { lgamma_half(k) } else { 0.0 },
+                2 => factorial(k),
+                3 => if k % 2 == 0 { (1..=k / 2).fold(std::f64::consts::PI, |r, j| r * (2.0 * j as f64 - 1.0) / (2.0 * j as f64)) } else { 0.0 },
+                _ => if k % 2 == 0 { (1..=k / 2).fold(std::f64::consts::PI / 2.0, |r, j| r * (2.0 * j as f64 - 1.0) / (2.0 * j as f64 + 2.0)) } else { 0.0 },
+            } / scale;
+            match res {
+                Err(m) => {
+                    o.viol(&subj, "never-panics", m);
+                    break;
+                }
+                Ok(Err(e)) => {
+                    o.viol(&subj, "rule-n-is-consumed-with-n-evaluations", format!("moment {}: the integrator did not return after rule {} ({}); abscissae seen for it: {}", k, n, e, seen.len()));
+                    break;
+                }
+                Ok(Ok(v)) => {
+                    let mut s = seen.clone();
+                    s.sort_by(|a, b| a.partial_cmp(b).unwrap());
+                    if seen.len() != n || s.windows(2).any(|w| !(w[1] > w[0])) {
+                        o.viol(&subj, "rule-n-is-consumed-with-n-distinct-abscissae", format!("moment {}: {} evaluations, sorted abscissae {:?}", k, seen.len(), &s[..s.len().min(6)]));
+                        break;
+                    }
+                    let abs: f64 = 1.0f64.max(want.abs());
+                    if !((v - want).abs() <= tol * abs * 4.0) {
+                        o.viol(&subj, "consumed-rule-reproduces-the-moment", format!("moment {}: rule gives {:e}, exact {:e}", k, v, want));
+                        break;
+                    }
+                }
+            }
+        }
+        o.sig = format!("{}|n{}", TABLES[p.table], n);
+        o
+    }
+}
+
 pub fn main(mut r: Report) -> ! {
     r.exhaustive = true;
     r.assumptions = vec![
@@ -237,5 +357,6 @@ pub fn main(mut r: Report) -> ! {
         "the tables are read through a #[path] include of /repo/src/integrate/tables.rs, so they always come from the working tree".into(),
     ];
     r.run(&Rows);
+    r.run(&Consumed);
     r.finish()
 }
